@@ -51,6 +51,10 @@ CHECKS["C10"]=dict(level="model_checking", ref="§C10",
    technique="finite product enumeration of tapes x requests and request sequences through the real ROM trap, against a ROM-validated reference of LD-BYTES",
    text="Block lengths around every 128-byte buffer boundary x flag bytes x right/wrong checksum, each followed by a sentinel block, x expected flag x LOAD/VERIFY x seven DE values (incl. the flag-test-skipping D=FF) x IX in RAM / ROM-RAM edge / wrap / screen x VERIFY images equal or differing at first/middle/last byte, plus request sequences running past the end of the tape and on an empty tape, on both machines: each request enters the real ROM at 0556h on the real Emulator with fast loading on; all 64K of memory, IX, DE and carry are compared with RefLdBytes; past the end the routine must not return and the loop-invariant registers must equal the ROM polling a silent tape.",
    note="RefLdBytes is validated on every run against the genuine 48K ROM routine executed on RefZ80 with RefTape's ideal waveform. Not judged: ROM call frames just below SP; files truncated inside a block.")
+CHECKS["C07"]=dict(level="model_checking", ref="§C07",
+   technique="finite product enumeration over all 65536 port addresses x read/write x device configurations, executed by the emulated CPU, plus all T-states for the floating bus",
+   text="Every one of the 65536 port addresses is read (IN A,(C)) and written (OUT (C),A) by the emulated CPU on 20 (quick) / 32 (thorough) configurations of machine x Kempston x mouse x extender claim set; each device answers with a distinct byte, write effects are observed on border, paging latch, AY read-back and the extender log; a three-valued claim table transcribed from the statement decides which accesses are judged (exactly one claimant, none possible). The floating bus is read at every T of the frame on 48K, 128K and 128K with the shadow screen; EAR on bit 6 follows the tape level.",
+   note="Not judged: ports selecting two devices, the wider A0=1/A5=0 family for the mouse, phase of the floating bus inside the fetch window (+-8 T).")
 NOT_YET = {
 }
 def main():
